@@ -32,7 +32,33 @@ def case_strategy():
     from hypothesis import strategies as st
 
     @st.composite
+    def _lit_case(draw):
+        """3-6 methods keyed by Literal sets at the first position, some sharing values (pairs that are or are not
+        neighbours in any internal listing), plus the int fallback; probes are the shared and the private values"""
+        h = {"classes": [{"bases": []}]}
+        n = draw(st.integers(3, 6))
+        groups = [sorted(draw(st.sets(st.integers(0, 5), min_size=1, max_size=3))) for _ in range(n)]
+        two = draw(st.booleans())
+        methods = []
+        for j, g in enumerate(groups):
+            pos = [{"name": "a0", "ann": ["lit", g]}]
+            if two:
+                pos.append({"name": "a1", "ann": draw(st.sampled_from([["cls", "int"], ["obj"], ["lit", [0]]]))})
+            methods.append({"id": j, "pos": pos, "kw": [], "prio": 0})
+        if draw(st.booleans()):
+            methods.append({"id": n, "pos": [{"name": "a0", "ann": ["cls", "int"]}] + ([{"name": "a1", "ann": ["obj"]}] if two else []),
+                            "kw": [], "prio": 0})
+        calls = [{"args": [["int", v]] + ([["int", draw(st.sampled_from([0, 1]))]] if two else []), "kw": {}, "script": []}
+                 for v in draw(st.lists(st.integers(0, 6), min_size=4, max_size=7, unique=True))]
+        nm = len(methods)
+        return {"hier": h, "methods": methods, "calls": calls, "perm": list(draw(st.permutations(list(range(nm))))),
+                "salts": draw(st.lists(st.integers(1, 10 ** 6), min_size=3, max_size=3, unique=True)),
+                "extras": draw(st.lists(st.sampled_from(["arity", "class"]), min_size=1, max_size=2)), "kwpool": []}
+
+    @st.composite
     def _case(draw):
+        if draw(st.integers(0, 7)) == 0:
+            return draw(_lit_case())
         h = draw(H.hierarchies(2, 6))
         knames = H.class_names(h)
         env = H.build(h)
@@ -289,7 +315,7 @@ class Check:
     level = "exploration"
     rule = (
         "Hypothesis: hierarchy x <=6 methods (static, combinator with shared members, dependent on the same bound; 1-2 "
-        "positions, keyword-only, priorities) x 3-8 calls, each executed under: the natural configuration, a permuted "
+        "positions, keyword-only, priorities; 1 case in 8: 3-6 Literal-keyed methods with partly shared values) x 3-8 calls, each executed under: the natural configuration, a permuted "
         "registration order, 2-3 harness-chosen set iteration orders (alone and combined with the permutation), and with "
         "1-3 extra non-applicable methods (registered last / first); plus batches of cases re-run in fresh "
         "subprocesses with different hash seeds and allocation padding. Outcome vectors must be identical. "
